@@ -117,6 +117,10 @@ func cmdCheck(args []string) int {
 	tmp, _ := os.MkdirTemp("", "govc")
 	defer os.RemoveAll(tmp)
 	cfg := eng.SolverCfg{Dir: tmp, Quick: 4 * time.Second, Full: 150 * time.Second}
+	if v, err := strconv.Atoi(os.Getenv("GOVC_FULL_SECS")); err == nil && v > 0 {
+		// development aid (seed matrix): a shorter second-stage budget; never set by the registered commands
+		cfg.Full = time.Duration(v) * time.Second
+	}
 	if *tier == "thorough" {
 		cfg = eng.SolverCfg{Dir: tmp, Quick: 6 * time.Second, Full: 120 * time.Second, TwoAgree: true}
 	}
@@ -264,7 +268,7 @@ func cmdCheck(args []string) int {
 			}
 			if ob.Status != "unsat" {
 				ok = false
-				if firstFail == nil {
+				if firstFail == nil || (strings.HasPrefix(firstFail.Solver, "skipped") && !strings.HasPrefix(ob.Solver, "skipped")) {
 					firstFail = ob
 				}
 			} else {
